@@ -15,7 +15,8 @@ def engines : List (String × (List String → String)) := [
   ("warc", Wpull.Warc.handle),
   ("request", Wpull.Request.handle),
   ("warcwrite", Wpull.WarcWrite.handle),
-  ("http", Wpull.HttpWire.handle)
+  ("http", Wpull.HttpWire.handle),
+  ("pipeline", Wpull.Pipeline.handle)
 ]
 
 def handle (line : String) : String :=
